@@ -983,6 +983,12 @@ static int load_module_symbol_file(struct uftrace_symtab *symtab, const char *sy
 			type = *pos++;
 		}
 
+		/* the line ended before the type: what follows is not part of it */
+		if (type == '\0') {
+			pr_dbg4("invalid symbol file format: no type\n");
+			continue;
+		}
+
 		if (*pos++ != ' ') {
 			pr_dbg4("invalid symbol file format after type\n");
 			continue;
